@@ -20,3 +20,21 @@ class EngineC(tops.Component):
         if cr.ops and " regrace " in cr.ops[-1] and cr.oracle and all("C19: an accepted Register call delivered no result" in m for _, m in cr.oracle):
             return "register-races-with-shutdown"
         return None
+
+
+class EngineRace(EngineC):
+    """the same engine lives built with the race detector, while foreign goroutines hammer the
+    concurrency-safe API from OnBoot / OnOpen on; every race report is an oracle failure"""
+    suffix = "-race"
+    with_model = False
+    race = True
+    ncases = (24, 300)
+
+    def extra_env(self):
+        return {"VERIF_HAMMER": "1", "VERIF_CASE_MARK": "1", "GORACE": "halt_on_error=0 exitcode=0"}
+
+    def finding_id(self, cr):
+        msgs = [m for _, m in cr.oracle]
+        if msgs and all(("data race" in m and "baseLoadBalancer).register" in m and "baseLoadBalancer).iterate" in m) for m in msgs):
+            return "race-countconnections-vs-register"
+        return EngineC.finding_id(self, cr)
